@@ -496,7 +496,7 @@ class LAMMPSEngine(EngineBase):
                     # loop over the frames that are ready
                     for frame in range(len(trajectory)):
                         posvel = trajectory.pop(0)
-                        box = box_trajectory.pop()
+                        box = box_trajectory.pop(0)
                         pos = posvel[:, :3]
                         vel = posvel[:, 3:]
                         # shift the box bounds
